@@ -17,7 +17,8 @@ RELATED = {
 
 
 def sh(cmd, cwd=None):
-    return subprocess.run(cmd, cwd=cwd, capture_output=True, text=True)
+    env = dict(os.environ, GT_EVIDENCE_DIR=os.path.join(VERIF, "work", "evidence_scratch"))   # never overwrite the committed evidence
+    return subprocess.run(cmd, cwd=cwd, capture_output=True, text=True, env=env)
 
 
 def main(argv):
